@@ -685,6 +685,7 @@ Verdict run_case(Case const& c, Ctx& ctx)
 		std::vector<unsigned char> file;
 		{ std::string s2 = read_file(pcap_path); file.assign(s2.begin(), s2.end()); }
 		::unlink(pcap_path.c_str());
+		trace_line(fmt("pcap bytes=%zu fnv=%016llx", file.size(), (unsigned long long)fnv1a(file.data(), file.size())));
 		std::vector<pcapref::Record> recs;
 		err19 = pcapref::parse(file, recs);
 		pcap_records = (long long)recs.size();
